@@ -118,6 +118,19 @@ CLAIMS = {
              "sacrificial process under a watchdog, followed by a probe evaluation on the same store; TraceC11.tla accepts only "
              "value/error outcomes with a usable store (rejects panic, hang, process death, locked/poisoned store).",
         note="Bounded enumeration; arbitrary byte strings outside the generated families are not covered."),
+    "C12": dict(
+        category="fault_enumeration", design_ref="4/C12",
+        technique="TraceC12.tla: total outcome table of platform operations; recorded runs of F-odd documents validated against it",
+        text="F-odd documents put a failing form into every slot: each expression attribute of <send> (eventexpr, targetexpr, "
+             "typeexpr, delayexpr, namelist, param expr/location, content expr), unsupported type, malformed target, unknown "
+             "session / missing parent / unknown invokeid, illegal delays, failing <cancel>/<assign>/<log>/<script>/<if>/<foreach>, "
+             "a failing transition condition, failing <data> and <donedata>, twelve failing forms of <invoke> (type, src, content, "
+             "params, unparsable or unsupported child documents), an unknown datamodel name, and reserved event names sent by "
+             "the host; each odd event is followed by a probe event, in several orders, for rfsm-expression and ecmascript. "
+             "TraceC12.tla accepts a run only if the session thread did not panic, every probe was answered, the error event "
+             "the Recommendation assigns (Outcome table) appeared on the internal queue, all events were processed and the final "
+             "cancel ended the session.",
+        note="A stall is judged by a 20 s deadline after all events were queued; documents the reader rejects are outside the property."),
     "C18": dict(
         category="fault_enumeration", design_ref="4/C18",
         technique="Rfsm.tla reader/writer protocol model-checked (CutIsError); every cut position and every single write fault of real images validated by TraceC18.tla",
